@@ -360,10 +360,18 @@ def run_verus(path, rlimit, extra=()):
 def scan_trusted(text, fns):
     """Mechanical scan of the assembled file for everything that is assumed rather than proved."""
     tb = []
+    imported = {}
     for f in fns:
         if f.external and not f.canary:
             sig_txt = re.sub(r"\s+", " ", text[f.start:f.sig_end]).strip()
-            tb.append("assumed contract (external_body/axiom): %s" % sig_txt[:300])
+            pre = text[max(0, f.start - 200):f.start]
+            m = re.search(r"/\*proved-in:(\w+)\*/\s*$", pre.rstrip())
+            if m:
+                imported.setdefault(m.group(1), []).append(f.qual)
+            else:
+                tb.append("assumed contract (external_body/axiom): %s" % sig_txt[:300])
+    for u, names in sorted(imported.items()):
+        tb.append("contracts imported from unit %s (proved there against the same /repo text, assumed here): %s" % (u, ", ".join(sorted(names))))
     for m in re.finditer(r"#\[verifier::external_body\]\s*pub struct\s+(\w+)", text):
         tb.append("opaque stand-in type: %s" % m.group(1))
     for m in re.finditer(r"\b(assume|admit)\s*\(", text):
@@ -544,7 +552,7 @@ def main():
         samples.append({"obligation": o, "function": obs[o]["fn"], "clause": re.sub(r"\s+", " ", obs[o]["clause"])[:400]})
     fn_under_contract = []
     for it in ctx.items:
-        if it["kind"] == "fn":
+        if it["kind"] == "fn" and not it.get("imported_from"):
             fn_under_contract.append({"path": it["path"], "lines": it["lines"], "sha256": it["sha256"][:16],
                                       "rewrites": [r for r in it["rules"] if r.get("rule") not in ("R-attr", "R-ret")]})
     slow = sorted(per_fn_time.items(), key=lambda kv: -kv[1])[:8]
